@@ -1041,13 +1041,20 @@ impl FunctionCompiler<'_> {
                 self.compile_and_cast(inner_expr, cast_to)
             }
             hir::Expr::Ref { expr, .. } => {
+                // `^(x.y)` and `^p^` refer to the same memory as `^x.y` and `p`
+                let mut place = expr;
+                while let hir::Expr::Paren(Some(inner)) = self.world_bodies[self.loc.file()][place] {
+                    place = inner;
+                }
+
                 if self.tys[self.loc][expr].is_aggregate()
                     || matches!(
-                        self.world_bodies[self.loc.file()][expr],
+                        self.world_bodies[self.loc.file()][place],
                         hir::Expr::Local(_)
                             | hir::Expr::LocalGlobal(_)
                             | hir::Expr::Index { .. }
                             | hir::Expr::Member { .. }
+                            | hir::Expr::Deref { .. }
                     )
                 {
                     // references to locals or globals should return the actual memory address of the local or global
